@@ -223,6 +223,62 @@ fn run(input: &Tree) -> Option<Tree> {
                 _ => return None,
             }
         }
+        16 => {
+            // comparisons of f64 result collections: by the totals, as far as those are comparable (a NaN total - e.g.
+            // inf + -inf - is comparable with nothing); == is structural
+            let pol = l.get(1)?.int()?;
+            let fl = |t: &Tree| -> Option<Vec<f64>> { t.list()?.iter().map(|b| b.u64().map(f64::from_bits)).collect() };
+            let (va, vb) = (fl(l.get(2)?)?, fl(l.get(3)?)?);
+            match pol {
+                0 => {
+                    let (x, y): (TestResults<Score<f64>>, TestResults<Score<f64>>) = (va.into(), vb.into());
+                    ops(&x, &y, None)
+                }
+                1 => {
+                    let (x, y): (TestResults<Error<f64>>, TestResults<Error<f64>>) = (va.into(), vb.into());
+                    ops(&x, &y, None)
+                }
+                2 => {
+                    let x = EcIndividual::new(1u8, TestResults::<Score<f64>>::from(va));
+                    let y = EcIndividual::new(1u8, TestResults::<Score<f64>>::from(vb));
+                    ops(&x, &y, None)
+                }
+                _ => return None,
+            }
+        }
+        17 => {
+            // a score is never comparable to an error - so there can be no total order (`Ord`) on `TestResult`: probed by
+            // method resolution (an inherent item is preferred over a trait item only where its bounds hold)
+            struct Probe<T>(std::marker::PhantomData<T>);
+            trait NoOrd<T> {
+                fn cmp_pair(&self, _: &T, _: &T) -> i64 {
+                    2
+                }
+                fn is_ord(&self) -> bool {
+                    false
+                }
+            }
+            impl<T> NoOrd<T> for Probe<T> {}
+            impl<T: Ord> Probe<T> {
+                #[allow(dead_code)]
+                fn cmp_pair(&self, a: &T, b: &T) -> i64 {
+                    match Ord::cmp(a, b) {
+                        Ordering::Less => -1,
+                        Ordering::Equal => 0,
+                        Ordering::Greater => 1,
+                    }
+                }
+                #[allow(dead_code)]
+                fn is_ord(&self) -> bool {
+                    true
+                }
+            }
+            let (x, y): (TestResult<i64, i64>, TestResult<i64, i64>) = (TestResult::Score(Score(1)), TestResult::Error(Error(1)));
+            let p = Probe::<TestResult<i64, i64>>(std::marker::PhantomData);
+            // (the same probe says `true` for a type that is `Ord`: the technique is checked on every run)
+            let control = Probe::<i64>(std::marker::PhantomData);
+            tl![ab(p.is_ord()), a(p.cmp_pair(&x, &y)), ab(control.is_ord()), a(control.cmp_pair(&1, &2))]
+        }
         13 => {
             // floating-point results: the total is the IN-ORDER sum (addition is not associative there)
             let bits: Vec<u64> = l.get(2)?.list()?.iter().map(Tree::u64).collect::<Option<_>>()?;
@@ -345,6 +401,22 @@ fn gen(tier: &str, rng: &mut Sm) -> Gen {
             for _ in 0..6 {
                 let v: Vec<Tree> = (0..rng.below(6)).map(|_| a(rng.range(lo, 6) as i128)).collect();
                 g.inputs.push(tl![A(15), a(*ty), L(v)]);
+            }
+        }
+    }
+    g.inputs.push(tl![A(17)]);
+    // comparisons of float result collections, with totals that are not comparable
+    {
+        let fl = |v: &[f64]| L(v.iter().map(|x| a(x.to_bits() as i128)).collect());
+        let vecs: Vec<Vec<f64>> = vec![
+            vec![], vec![1.0, 2.0], vec![2.0, 1.0], vec![3.0], vec![f64::INFINITY, f64::NEG_INFINITY], vec![1.0, f64::NAN], vec![2.0, f64::NAN],
+            vec![f64::NAN], vec![0.0], vec![-0.0], vec![f64::INFINITY], vec![f64::NEG_INFINITY, 5.0], vec![1e308, 1e308], vec![0.5, 0.25],
+        ];
+        for x in &vecs {
+            for y in &vecs {
+                for pol in 0..3i128 {
+                    g.inputs.push(tl![A(16), a(pol), fl(x), fl(y)]);
+                }
             }
         }
     }
